@@ -286,6 +286,90 @@ def gen_configs(I, ctx):
     return out
 
 
+def dc_band_dims(I, kw):
+    """{comp: (DC-band width, height)} as the DECODER computes them (picture_dimensions + subband sizes)."""
+    from vc2_conformance.pseudocode.video_parameters import picture_dimensions
+    from vc2_conformance.pseudocode.slice_sizes import subband_width, subband_height
+    cf = I.common.make_codec_features(**dict(kw, wavelet_index=I.t.WaveletFilters(kw["wavelet_index"]),
+                                             wavelet_index_ho=I.t.WaveletFilters(kw["wavelet_index_ho"]),
+                                             color_diff_format=I.t.ColorDifferenceSamplingFormats(kw["color_diff_format"])))
+    st = I.State(dwt_depth=kw["dwt_depth"], dwt_depth_ho=kw["dwt_depth_ho"], slices_x=1, slices_y=1,
+                 picture_coding_mode=cf["picture_coding_mode"])
+    picture_dimensions(st, cf["video_parameters"])
+    return dict((c, (subband_width(st, 0, c), subband_height(st, 0, c))) for c in ("Y", "C1"))
+
+
+def gen_derived_configs(I, ctx):
+    """Configurations around the boundaries of the DERIVED entries of codec_features_to_trivial_level_constraints:
+    slices_have_same_dimensions (slice grids chosen by the divisibility of EACH component's DC band separately:
+    luma only / chroma only / both / neither, for 4:4:4, 4:2:2, 4:2:0, frames and fields, symmetric and asymmetric
+    depths) and slice_bytes_numerator/denominator (picture_bytes sharing a factor with the slice count)."""
+    rng = ctx.rng
+    out = []
+    n = ctx.pick(36, 200)
+    tries = 0
+    while len(out) < n and tries < 50 * n:
+        tries += 1
+        cdf = rng.choice([0, 1, 2, 2])
+        fields = rng.random() < 0.3
+        xm = 2 if cdf in (1, 2) else 1
+        ym = (2 if cdf == 2 else 1) * (2 if fields else 1)
+        w = xm * rng.randint(1, 24 // xm)
+        h = ym * rng.randint(1, 24 // ym)
+        dh = rng.choice([0, 0, 1, 2])
+        d = rng.choice([0, 1, 2]) if dh else rng.choice([1, 2, 3])
+        profile = rng.choice(["hq", "hq", "ld"])
+        kw = dict(profile=profile, lossless=(profile == "hq" and rng.random() < 0.5), wavelet_index=rng.randrange(7), dwt_depth=d,
+                  dwt_depth_ho=dh, fragment_slice_count=0, frame_width=w, frame_height=h, color_diff_format=cdf, fields=fields,
+                  interlaced=False, luma_offset=0, luma_excursion=255, color_diff_offset=128, color_diff_excursion=255,
+                  quantization_matrix=None, slices_x=1, slices_y=1)
+        kw["wavelet_index_ho"] = kw["wavelet_index"] if not dh else rng.randrange(7)
+        if not I.common.has_default_quant_matrix(I.t.WaveletFilters(kw["wavelet_index"]), I.t.WaveletFilters(kw["wavelet_index_ho"]), d, dh):
+            kw["quantization_matrix"] = {str(l): v for l, v in I.common.flat_quant_matrix(d, dh).items()}
+        dims = dc_band_dims(I, kw)
+        want = rng.choice([(True, False), (False, True), (True, True), (False, False)])   # (luma divisible, chroma divisible)
+        axis = rng.choice(["x", "y", "xy"])
+
+        def pick(ly, lc):
+            cands = [k for k in range(1, max(ly, lc) + 3) if ((ly % k == 0), (lc % k == 0)) == want]
+            return rng.choice(cands) if cands else None
+        sx = pick(dims["Y"][0], dims["C1"][0]) if "x" in axis else rng.choice([k for k in range(1, 5) if dims["Y"][0] % k == 0 and dims["C1"][0] % k == 0])
+        sy = pick(dims["Y"][1], dims["C1"][1]) if "y" in axis else rng.choice([k for k in range(1, 5) if dims["Y"][1] % k == 0 and dims["C1"][1] % k == 0])
+        if sx is None or sy is None or sx * sy > 120:
+            continue
+        kw["slices_x"], kw["slices_y"] = sx, sy
+        nsl = sx * sy
+        if not kw["lossless"]:
+            f = rng.choice([2, 3, 4, 6])
+            kw["picture_bytes"] = rng.choice([nsl * rng.randint(8, 40), (nsl // f if nsl % f == 0 else nsl) * rng.randint(9, 60) * (f - 1),
+                                              nsl * rng.randint(8, 40) + nsl // 2])
+            if kw["picture_bytes"] < 6 * nsl:
+                kw["picture_bytes"] = 8 * nsl
+        out.append({"kw": kw, "level": 1, "vp": None, "family": "derived", "pic_seed": rng.randrange(1 << 30),
+                    "pic_kind": rng.choice(["mid", "noise", "zeros"]), "dc": {c: list(v) for c, v in dims.items()}, "want": list(want)})
+    return out
+
+
+def gen_derived_tables(I, conf, ob):
+    """Tables pinning each DERIVED trivial constraint to each of its possible values (everything else open)."""
+    lvl = [conf["level"]]
+    kw = conf["kw"]
+    tables = [("derived-shsd-true", {"level": lvl, "slices_have_same_dimensions": [1]}, ".*", "slices_have_same_dimensions"),
+              ("derived-shsd-false", {"level": lvl, "slices_have_same_dimensions": [0]}, ".*", "slices_have_same_dimensions"),
+              ("derived-custom-qm-true", {"level": lvl, "custom_quant_matrix": [1]}, ".*", "custom_quant_matrix"),
+              ("derived-custom-qm-false", {"level": lvl, "custom_quant_matrix": [0]}, ".*", "custom_quant_matrix")]
+    if kw["profile"] == "ld":
+        nsl = kw["slices_x"] * kw["slices_y"]
+        fr = Fraction(kw["picture_bytes"], nsl)
+        tables += [("derived-slice-bytes-reduced", {"level": lvl, "slice_bytes_numerator": [fr.numerator], "slice_bytes_denominator": [fr.denominator]}, ".*", None),
+                   ("derived-slice-bytes-unreduced", {"level": lvl, "slice_bytes_numerator": [kw["picture_bytes"]], "slice_bytes_denominator": [nsl]}, ".*", "slice_bytes_numerator"),
+                   ("derived-slice-bytes-doubled", {"level": lvl, "slice_bytes_numerator": [2 * fr.numerator], "slice_bytes_denominator": [2 * fr.denominator]}, ".*", "slice_bytes_numerator")]
+    else:
+        tables += [("derived-prefix-bytes-0", {"level": lvl, "slice_prefix_bytes": [0]}, ".*", None),
+                   ("derived-prefix-bytes-1", {"level": lvl, "slice_prefix_bytes": [1]}, ".*", "slice_prefix_bytes")]
+    return tables
+
+
 def others(vals):
     """A small value set NOT containing any of vals."""
     top = max(vals) if vals else 0
@@ -294,6 +378,8 @@ def others(vals):
 
 def gen_tables(I, rng, conf, ob, ntables):
     """[(name, colspec, regex, restricted_key or None)]"""
+    if conf.get("family") == "derived":
+        return gen_derived_tables(I, conf, ob)
     obs, units = ob["obs"], ob["units"]
     exact = {"level": [conf["level"]]}
     for k, vals in obs.items():
@@ -665,8 +751,8 @@ def run(ctx):
         "video formats with preset/custom groups) x synthetic level definitions: single-column ones derived from the values the "
         "configuration's own stream contains: exact, widened, one key restricted (value removed / flag inverted), flags forced, "
         "preset-only indices, restricted base formats, pinned versions, extended-transform flag/value sets, 11 ordering patterns; "
-        "multi-column ones (2-4 columns agreeing on the configuration's fixed values, differing in base_video_format and in the admitted custom flags / preset indices, built so that the most similar base format cannot express the format through its own column); plus the REAL table: small level-1 formats with pictures and, header level, every column's admitted formats and near misses (sibling column's coding mode / scan / frame rate / format). Non-trivial: the table restricts at least one key; distinct by (configuration, table).")
-    confs = gen_configs(I, ctx)
+        "multi-column ones (2-4 columns agreeing on the configuration's fixed values, differing in base_video_format and in the admitted custom flags / preset indices, built so that the most similar base format cannot express the format through its own column); derived-constraint families (slice grids on the divisibility boundary of each component's DC band x slices_have_same_dimensions pinned true/false, reduced/unreduced slice_bytes, custom_quant_matrix, slice_prefix_bytes); plus the REAL table: small level-1 formats with pictures and, header level, every column's admitted formats and near misses (sibling column's coding mode / scan / frame rate / format). Non-trivial: the table restricts at least one key; distinct by (configuration, table).")
+    confs = gen_configs(I, ctx) + gen_derived_configs(I, ctx)
     ntables = ctx.pick(14, 30)
     jobs = [(c, ntables, ctx.rng.randrange(1 << 30)) for c in confs]
     t0 = time.time()
